@@ -114,7 +114,7 @@ def _wrap(data, mode):
     if mode == 1:
         return bytearray(data)
     if mode == 2:
-        return memoryview(data)
+        return memoryview(data) if len(data) % 2 else memoryview(bytearray(data))
     return data
 
 
